@@ -1,6 +1,141 @@
-(* C07 -- ASN.1 DER primitives. Statements only (filled in as the proofs land). *)
-From V Require Import Prelude.Base Model.Asn1.
+(* C07 -- ASN.1 DER primitives: minimal encoding, exact decoding, exact consumption. Statements only.
+   Model: Model/Asn1.v (function-for-function after _asn1.py, kernels k_* / constants c_* regenerated
+   from the source). Spec: Spec/DerSpec.v (X.690 relations der_ident, der_len, der_int, der_oid and the
+   strict reader strict_parse). P n = 256^n. tag_wf t: class in 0..3, number >= 0. tag_readable t: a
+   universal tag has one of the numbers of TypeTagNumber (0..36), the only ones the reader admits.
+   Content lengths are below 256^126 (X.690 8.1.3.5: at most 126 length octets). *)
+From V Require Import Prelude.Base Prelude.PyInt Prelude.PySlice Prelude.PyStr gen.K_asn1 gen.C_asn1 Model.Asn1 Spec.DerSpec.
+From V Require Import Proofs.Asn1Lib Proofs.Asn1Hdr Proofs.Asn1Tlv Proofs.Asn1Int Proofs.Asn1Oid Proofs.Asn1Str Proofs.Asn1Tree Proofs.DerFacts Proofs.C07.
 
-Theorem C07_example_int_m65536 : pack_int_content (-65536) = Ok [255; 0; 0] /\ read_int_content [255; 0; 0] = Ok (-65536).
+(* ---- identifier and length octets: every class, every number below and above 30, both forms of length *)
+Theorem C07_header_roundtrip : forall t c rest, tag_wf t -> tag_readable t -> len c < P 126 ->
+  exists ib lb, pack_tlv t c = Ok (ib ++ lb ++ c) /\ der_ident t ib /\ der_len (len c) lb /\
+    read_asn1_header (ib ++ lb ++ c ++ rest) = Ok (mk_header t (len ib + len lb) (len c)).
+Proof. exact header_roundtrip. Qed.
+Print Assumptions C07_header_roundtrip.
+
+(* the header reader accepts every DER header, not only the writer's *)
+Theorem C07_header_reads_der : forall t ib n lb rest, der_ident t ib -> der_len n lb -> tag_readable t ->
+  read_asn1_header (ib ++ lb ++ rest) = Ok (mk_header t (len ib + len lb) n).
+Proof. exact read_header_der. Qed.
+Print Assumptions C07_header_reads_der.
+
+(* minimal = unique *)
+Theorem C07_len_unique : forall n b1 b2, der_len n b1 -> der_len n b2 -> b1 = b2.
+Proof. exact der_len_unique. Qed.
+Print Assumptions C07_len_unique.
+Theorem C07_ident_unique : forall t b1 b2, der_ident t b1 -> der_ident t b2 -> b1 = b2.
+Proof. exact der_ident_unique. Qed.
+Print Assumptions C07_ident_unique.
+Theorem C07_int_unique : forall z b1 b2, der_int z b1 -> der_int z b2 -> b1 = b2.
+Proof. exact der_int_unique. Qed.
+Print Assumptions C07_int_unique.
+Theorem C07_oid_unique : forall arcs b1 b2, der_oid arcs b1 -> der_oid arcs b2 -> b1 = b2.
+Proof. exact der_oid_unique. Qed.
+Print Assumptions C07_oid_unique.
+
+(* ---- INTEGER: for ALL z the writer's content octets are the minimal two's-complement encoding *)
+Theorem C07_int_encode : forall z : Z, exists bs, pack_int_content z = Ok bs /\ der_int z bs.
+Proof. exact pack_int_content_der. Qed.
+Print Assumptions C07_int_encode.
+(* the reader computes the two's-complement value of any non-empty content (D1: including FF 00 00) *)
+Theorem C07_int_decode : forall raw, wfb raw = true -> raw <> [] -> read_int_content raw = Ok (tc_val raw).
+Proof. exact read_int_content_tc. Qed.
+Print Assumptions C07_int_decode.
+Theorem C07_int_roundtrip : forall z c t rest, pack_int_content z = Ok c -> len c < P 126 ->
+  match t with Some x => tag_ok x | None => True end ->
+  exists bs, pack_integer z t = Ok bs /\ read_integer (bs ++ rest) t None = Ok (z, rest).
+Proof. exact read_integer_pack_tag. Qed.
+Print Assumptions C07_int_roundtrip.
+Theorem C07_enumerated_roundtrip : forall z c rest, pack_int_content z = Ok c -> len c < P 126 ->
+  exists bs, pack_enumerated z None = Ok bs /\ read_enumerated (bs ++ rest) None None = Ok (z, rest).
+Proof. exact read_enumerated_pack. Qed.
+Print Assumptions C07_enumerated_roundtrip.
+(* D2: no content octets is a deliberate ValueError *)
+Theorem C07_empty_content_refused : read_int_content [] = Raise ValueError /\ read_oid_content [] = Raise ValueError.
+Proof. exact empty_content_refused. Qed.
+Print Assumptions C07_empty_content_refused.
+
+(* ---- OBJECT IDENTIFIER: everything the writer accepts with first arc <= 2; arcs of any size *)
+Theorem C07_oid_encode : forall a b rest, 0 <= a <= 2 -> 0 <= b <= 39 -> Forall (fun x => 0 <= x) rest ->
+  exists bs, encode_oid (a :: b :: rest) = Ok bs /\ der_oid (a :: b :: rest) bs.
+Proof. exact encode_oid_der. Qed.
+Print Assumptions C07_oid_encode.
+Theorem C07_oid_roundtrip : forall a b rest c suffix, 0 <= a <= 2 -> 0 <= b <= 39 -> Forall (fun x => 0 <= x) rest ->
+  encode_oid (a :: b :: rest) = Ok c -> len c < P 126 ->
+  exists bs, pack_object_identifier (a :: b :: rest) None = Ok bs /\
+    read_object_identifier (bs ++ suffix) None None = Ok (a :: b :: rest, suffix).
+Proof. exact read_oid_pack. Qed.
+Print Assumptions C07_oid_roundtrip.
+(* domain limit of the code, stated: a second arc above 39 (legal under arc 2) is refused, not mis-encoded *)
+Theorem C07_oid_refused : forall a b rest, 39 < b \/ 39 < a -> encode_oid (a :: b :: rest) = Raise ValueError.
+Proof. exact encode_oid_refuses. Qed.
+Print Assumptions C07_oid_refused.
+
+(* ---- booleans and strings *)
+Theorem C07_boolean_roundtrip : forall v rest,
+  exists bs, pack_boolean v None = Ok bs /\ read_boolean (bs ++ rest) None None = Ok (v, rest) /\ bs = [1; 1; if v then 255 else 0].
+Proof. exact read_boolean_pack. Qed.
+Print Assumptions C07_boolean_roundtrip.
+Theorem C07_octet_string_roundtrip : forall b t rest, match t with Some x => tag_ok x | None => True end -> len b < P 126 ->
+  exists bs, pack_octet_string b t = Ok bs /\ read_octet_string (bs ++ rest) t None = Ok (b, rest).
+Proof. exact read_octet_string_pack. Qed.
+Print Assumptions C07_octet_string_roundtrip.
+Theorem C07_utf8_roundtrip : forall s c rest, utf8_encode s = Ok c -> len c < P 126 ->
+  exists bs, pack_utf8_string s None = Ok bs /\ read_utf8_string (bs ++ rest) None None = Ok (s, rest).
+Proof. exact read_utf8_pack. Qed.
+Print Assumptions C07_utf8_roundtrip.
+Theorem C07_time_roundtrip : forall s c rest, utf8_encode s = Ok c -> len c < P 126 ->
+  exists bs, pack_generalized_time s None = Ok bs /\ read_generalized_time (bs ++ rest) None None = Ok (s, rest).
+Proof. exact read_gentime_pack. Qed.
+Print Assumptions C07_time_roundtrip.
+Theorem C07_sequence_roundtrip : forall body t rest, match t with Some x => tag_ok x | None => True end -> len body < P 126 ->
+  exists bs, pack_tlv (opt_tag t seq_tag) body = Ok bs /\ read_sequence (bs ++ rest) t None = Ok (body, rest).
+Proof. exact read_sequence_pack. Qed.
+Print Assumptions C07_sequence_roundtrip.
+Theorem C07_set_roundtrip : forall body t rest, match t with Some x => tag_ok x | None => True end -> len body < P 126 ->
+  exists bs, pack_tlv (opt_tag t set_tag) body = Ok bs /\ read_set (bs ++ rest) t None = Ok (body, rest).
+Proof. exact read_set_pack. Qed.
+Print Assumptions C07_set_roundtrip.
+
+(* ---- exact consumption: the value octets, the consumed count, and the view after the read *)
+Theorem C07_exact_consumption : forall ty t c rest exp, tag_wf t -> tag_readable t -> len c < P 126 -> expected_of exp ty = t ->
+  exists bs, pack_tlv t c = Ok bs /\ validate_tag (bs ++ rest) exp ty None = Ok (c, len bs) /\
+             read_raw ty (bs ++ rest) exp None = Ok (c, rest).
+Proof. exact exact_consumption. Qed.
+Print Assumptions C07_exact_consumption.
+Theorem C07_wrong_tag_refused : forall ty t c rest exp, tag_wf t -> tag_readable t -> len c < P 126 -> expected_of exp ty <> t ->
+  exists bs, pack_tlv t c = Ok bs /\ validate_tag (bs ++ rest) exp ty None = Raise ValueError.
+Proof. exact wrong_tag_refused. Qed.
+Print Assumptions C07_wrong_tag_refused.
+
+(* ---- nesting and concatenation: any depth, sequences and sets, any tags *)
+Theorem C07_nested : forall t, wf_tree t -> exists bs, encode t = Ok bs /\ strict_parse bs = Some [t].
+Proof. exact nested. Qed.
+Print Assumptions C07_nested.
+Theorem C07_concat : forall ts, wf_trees ts -> exists bs, encode_list ts = Ok bs /\ strict_parse bs = Some ts.
+Proof. exact concat_parse. Qed.
+Print Assumptions C07_concat.
+(* the code's own reader on a concatenation: each content in order, nothing left but the suffix *)
+Theorem C07_concat_reader : forall ts, wf_trees ts -> readable_roots ts -> forall rest,
+  exists bs cs, encode_list ts = Ok bs /\ map_res content_of ts = Ok cs /\ read_each ts (bs ++ rest) = Ok (cs, rest).
+Proof. exact concat_read. Qed.
+Print Assumptions C07_concat_reader.
+
+(* ---- the hypotheses are satisfiable; boundary examples *)
+Example C07_ex_tree : wf_tree ex_tree /\ exists bs, encode ex_tree = Ok bs /\ len bs = 145.
+Proof. split; [exact ex_tree_wf|]. eexists. split; [vm_compute; reflexivity|reflexivity]. Qed.
+Example C07_ex_m65536 : pack_integer (-65536) None = Ok [2; 3; 255; 0; 0] /\ read_integer [2; 3; 255; 0; 0; 9] None None = Ok (-65536, [9]).
 Proof. split; reflexivity. Qed.
-Print Assumptions C07_example_int_m65536.
+Example C07_ex_lengths :
+  map (fun n => match pack_octet_string (repeat 0 n) None with Ok b => firstn 5 b | Raise _ => [] end) [127; 128; 255; 256; 65535; 65536]%nat
+  = [[4; 127; 0; 0; 0]; [4; 129; 128; 0; 0]; [4; 129; 255; 0; 0]; [4; 130; 1; 0; 0]; [4; 130; 255; 255; 0]; [4; 131; 1; 0; 0]].
+Proof. vm_compute. reflexivity. Qed.
+Example C07_ex_tags :
+  map (fun n => pack_tlv (mk_tag 1 n true) []) [30; 31; 127; 128; 16384]
+  = [Ok [126; 0]; Ok [127; 31; 0]; Ok [127; 127; 0]; Ok [127; 129; 0; 0]; Ok [127; 129; 128; 0; 0]].
+Proof. vm_compute. reflexivity. Qed.
+Example C07_ex_tag_hyp : tag_wf (mk_tag 2 16384 true) /\ tag_readable (mk_tag 2 16384 true) /\ len (repeat 0 65536) < P 126.
+Proof. split; [split; cbn; lia|]. split; [intros H; discriminate H|]. apply small_lt_P126. vm_compute. reflexivity. Qed.
+Example C07_ex_oid : encode_oid [1; 2; 840; 113549; 1; 7; 3] = Ok [42; 134; 72; 134; 247; 13; 1; 7; 3].
+Proof. vm_compute. reflexivity. Qed.
